@@ -76,6 +76,7 @@ def run(ctx, run):
     _cor_failure(ctx, run, P.need("vbi_dvb_mux_cor", MUX))
     _feed_callback(ctx, run, P.need("vbi_dvb_mux_feed", MUX))
     _raw_left_consistent(ctx, run, P.need("generate_pes_packet", MUX))
+    _data_identifier_sets(ctx, run)
     _frame_capacity(ctx, run)
     _header_lookahead(ctx, run)
     _rejection_traceless(ctx, run, P.need("vbi_dvb_mux_feed", MUX))
@@ -477,6 +478,61 @@ def _max_read_offset(ctx, f, pname, depth=0):
                     if sub is not None:
                         best = max(best or 0, k0 + sub)
     return best
+
+
+def _data_identifier_sets(ctx, run):
+    """Every data_identifier the multiplexer can be set to is accepted by the demultiplexer's PES header validation.
+    Decided by value partitioning: both functions are analysed once for each of the 256 values (the mux parameter, the
+    header byte p[9 + 36] fixed to that value; everything else unconstrained) and a value is *accepted* when a TRUE
+    return stays reachable."""
+    from .. import absint, ivl
+    P = ctx.prog
+    setter = P.need("vbi_dvb_mux_set_data_identifier", MUX)
+    valid = P.need("valid_vbi_pes_packet_header", DEMUX)
+    run.touch(setter)
+    run.touch(valid)
+    par = setter.params[1]["name"]
+    bufp = valid.params[1]["name"]
+    # which header byte holds the identifier: the constant subscript of the validator's buffer that feeds the range test
+    idx = None
+    for n, e in enumerate(valid.exprs):
+        if e["k"] == "idx" and ex.const(valid, e["c"][1]) is not None and valid.exprs[ex.skip(valid, e["c"][0])].get("name") == bufp:
+            v = ex.const(valid, e["c"][1])
+            if v is not None and v >= 40:
+                idx = v
+    if idx is None:
+        raise AnalysisBroken("valid_vbi_pes_packet_header: the data_identifier byte was not found")
+
+    def true_reachable(f, an):
+        for b, i in flow.all_events(f):
+            e = f.exprs[i]
+            if e["k"] == "ret" and e.get("c"):
+                st = an.state_before(i)
+                if st is None:
+                    continue
+                v = an.eval(st, e["c"][0])
+                if v != (0, 0):
+                    return True
+        return False
+    acc_m, acc_d = set(), set()
+    for v in range(256):
+        if true_reachable(setter, absint.Analysis(ctx, setter, {par: (v, v)}).run()):
+            acc_m.add(v)
+        hits, missing = ivl.returns_reachable(ctx, valid, {"%s[%d]" % (bufp, idx): (v, v)}, want_true=True, persistent=True)
+        if hits:
+            acc_d.add(v)
+    key = "RF-TAB:data_identifier:mux-subset-of-demux"
+    if not acc_m or not acc_d or len(acc_d) == 256:
+        raise AnalysisBroken("data_identifier value partitioning failed (mux %d, demux %d accepted values)" % (len(acc_m), len(acc_d)))
+    lost = sorted(acc_m - acc_d)
+    if lost:
+        run.violation("RF-TAB", key, "vbi_dvb_mux_set_data_identifier accepts %s, which valid_vbi_pes_packet_header refuses: every "
+                      "PES packet multiplexed with such an identifier is silently skipped by the demultiplexer"
+                      % ", ".join("0x%02X" % x for x in lost), "%s:%d" % (valid.file, valid.line),
+                      witness={"mux_only": lost, "mux": len(acc_m), "demux": len(acc_d)})
+    else:
+        run.holds("RF-TAB", key, "the %d data_identifier values the multiplexer accepts are among the %d the demultiplexer accepts"
+                  % (len(acc_m), len(acc_d)), "%s:%d" % (valid.file, valid.line))
 
 
 def _frame_capacity(ctx, run):
